@@ -257,12 +257,23 @@ func MonFaultContainment(a *Analysis, hooks *Hooks) []Violation {
 		if res.Err != nil && len(c.SetRules) == 0 && !strings.Contains(res.Err.Error(), "cycles") {
 			vs = append(vs, Violation{"FaultContainment", c.N, faultRule, "a condition failure made Execute return an error although ReturnErrOnFailedRuleEvaluation is not set: " + res.Err.Error()})
 		}
-		// the failed condition is re-evaluated later: all following cycles agree with the reference
+		// the failed condition is re-evaluated later: all following cycles agree with the reference,
+		// and every active rule (the failed one included) is evaluated again
 		for i := fc + 1; i < len(a.Cycles); i++ {
 			if a.DomainFrom >= 0 && i >= a.DomainFrom {
 				break
 			}
-			flagsEqual(a.Cycles[i], "")
+			ci := a.Cycles[i]
+			flagsEqual(ci, "")
+			last := i == len(a.Cycles)-1
+			cut := last && (res.Err != nil || res.Aborted) && len(ci.SetRules) == 0
+			if !cut {
+				for name := range ci.Active {
+					if len(ci.Evals[name]) == 0 {
+						vs = append(vs, Violation{"FaultContainment", ci.N, name, "not evaluated in a cycle after a condition failed (a failure must leave the rule, and every other rule, active)"})
+					}
+				}
+			}
 		}
 		return vs
 	}
@@ -438,6 +449,8 @@ func runC14Case(c *Ctx, idx int) *CaseResult {
 			a := Analyze(prog, res, cfg, nil)
 			vs := MonFaultContainment(a, nil)
 			vs = append(vs, MonReplayEqual(a)...)
+			vs = append(vs, MonCandidatesComplete(a)...)
+			vs = append(vs, MonFiresOnlyWhenTrue(a)...)
 			if len(vs) > 0 {
 				cr.violate(joinViol(vs[:min(3, len(vs))]), caseDetail(text, pipeline, init, res, vs))
 				continue
